@@ -192,6 +192,18 @@ CHECKS["C15"] = dict(
     design="§3 C15",
 )
 
+CHECKS["C14"] = dict(
+    category="model_checking",
+    text="Expression phase: every builder expression tree from a grammar over a schema with camelCase fields/arguments, list / non-null / enum / input / custom-scalar arguments, interface and union results (8 roots x argument menus x "
+         "all single and paired sub-field items per level incl. aliases, method fields with arguments, nested arguments, .on() fragments; one and two top-level fields; sync and async), each with a hand-written equivalent GraphQL "
+         "text: the sent document must validate, declare each variable with the exact type of the argument it feeds, and give the reference executor the same response shape and recorded resolver arguments. History phase: "
+         "explicit-state BFS over sequences (depth 2 quick / 3 thorough) of 10 builder expressions touching shared class-level field objects; states are canonical snapshots of those objects, every (state, expression) probe is "
+         "rebuilt in a fresh process and must build the same document as in the initial state.",
+    note="Trusted: graphql-core validate/TypeInfo/execute as reference; the hand-written equivalent texts. State canonicalisation keeps every attribute the emitted document can depend on.",
+    technique="bounded-exhaustive enumeration of builder expression trees + explicit-state BFS over operation histories with canonical state hashing, on the real generated builder",
+    design="§3 C14",
+)
+
 PENDING_REASON = "check not built yet in this round (work in progress, see DESIGN.md §6)"
 NOT_APPLICABLE = {}
 
